@@ -1,2 +1,81 @@
-From BMC Require Import Base.
-Theorem C01_placeholder : True. Proof. exact I. Qed.
+(* C01 — Session establishment agrees on keys with every conforming BMC.
+   Console side: [Handshake.new_session] = newV2Session after the suite has been determined (the model is
+   replayed against the Go code on every handshake the C01/C02/C12 checks run).  BMC side: [SpecBmc.Bmc], a
+   managed system written from IPMI v2.0 13.17-13.23 and 13.28-13.32, deriving everything from its own view
+   of the exchange (stored user key zero-padded to 20 bytes, its own random number, GUID and session ID,
+   the bytes it received).  HMAC-MD5/SHA1/SHA256 are the Gallina implementations of Md5.v/Sha1.v/Sha256.v
+   (validated against the RFC vectors and crypto/* by the checks); the theorem does not depend on which
+   functions they are, only on both sides applying the same function to the same bytes. *)
+From BMC Require Import Base Prim Layers Layers2 Serialize Packet Conn Hmac Handshake HandshakeProofs ChannelFacts SpecBmc KeyAgreement.
+From Coq Require Import String.
+Notation length := List.length (only parsing).
+From BMCProps Require Import Tie.
+
+(* for every supported suite (authentication SHA1/MD5/SHA256 x integrity SHA1-96/MD5-128/SHA256-128 x AES-CBC-128,
+   which includes suites 17 and 3), every user name of 0..16 bytes, password of 0..20 bytes, KG absent or 20
+   bytes, privilege level 0..15, both lookup modes, every console random, BMC random, GUID and BMC session ID:
+   the three payloads the console transmits are accepted by the BMC, the three it answers are accepted by the
+   console, a session is returned, and its SIK, K1, K2, IDs and algorithms are the BMC's *)
+Theorem C01_key_agreement :
+  forall (o : session_opts) (s : suite) (random rc : bytes) (new_id : N) (cfg : Bmc.config)
+         (supported : N -> N -> N -> bool) (pwb : bytes),
+  In (su_auth s) [1; 2; 3] -> In (su_integ s) [1; 2; 4] -> su_conf s = 1 ->
+  supported (su_auth s) (su_integ s) (su_conf s) = true ->
+  so_priv o < 16 -> (length (so_user o) <= 16)%nat -> length random = 16%nat -> length rc = 16%nat ->
+  length (Bmc.guid cfg) = 16%nat -> new_id < 4294967296 ->
+  Bmc.find_user cfg (role_of o) (so_user o) = Some pwb ->
+  Bmc.pad20 pwb = Bmc.pad20 (so_password o) ->
+  (length pwb <= 20)%nat /\ (length (so_password o) <= 20)%nat ->
+  Bmc.kg cfg = so_kg o /\ (so_kg o = [] \/ length (so_kg o) = 20%nat) ->
+  exists q1 r1 pend d1 q2 r2 half d2 q3 r4 act d3 sent e k1 k2 k3,
+    payload_packet 0x10 q1 = Ok k1 /\ payload_packet 0x12 q2 = Ok k2 /\ payload_packet 0x14 q3 = Ok k3 /\
+    sent = [k1; k2; k3] /\
+    ser_opensessionreq (open_request o s) [] = Ok q1 /\
+    Bmc.open_session supported q1 new_id = Some (r1, Some pend) /\ payload_packet 0x11 r1 = Ok d1 /\
+    ser_rakp1 (m1 o s random new_id) [] = Ok q2 /\
+    Bmc.rakp1 cfg pend q2 rc = Some (r2, Some half) /\ payload_packet 0x13 r2 = Ok d2 /\
+    Bmc.rakp3 cfg half q3 = Some (r4, Some act) /\ payload_packet 0x15 r4 = Ok d3 /\
+    new_session o s random [Some d1] [Some d2] [Some d3] = (sent, inl e) /\
+    es_sik e = Bmc.a_sik act /\ es_k1 e = Bmc.a_k1 act /\ es_k2 e = Bmc.a_k2 act /\
+    es_remote_id e = Bmc.a_bmc_id act /\ es_local_id e = Bmc.a_console_id act /\
+    es_suite e = s /\ Bmc.a_integ act = su_integ s /\ Bmc.a_conf act = su_conf s.
+Proof. exact key_agreement. Qed.
+
+(* suites with None for integrity or confidentiality are refused with an error, never half-supported *)
+Theorem C01_none_is_refused : forall o s random sc1 sc2 sc3 sent e,
+  new_session o s random sc1 sc2 sc3 = (sent, inl e) -> su_integ s <> 0 /\ su_conf s = 1.
+Proof.
+  intros o s random sc1 sc2 sc3 sent e H.
+  destruct (new_session_ok_inv _ _ _ _ _ _ _ _ H) as [rsp [m2 [m4 [h [icvlen [b1 [p1 [b2 [p2 [b3 [p3 F]]]]]]]]]]].
+  destruct F as (_ & _ & _ & _ & _ & _ & _ & _ & _ & _ & _ & _ & _ & (S1 & S2 & S3)). auto.
+Qed.
+
+(* the keys a returned session exposes are always derived as the specification says, whatever was received:
+   SIK = HMAC_{KG or password}(Rm | Rc | role | ulen | uname), K_n = HMAC_SIK(n x 20) *)
+Theorem C01_keys_derived : forall o s random sc1 sc2 sc3 sent e,
+  new_session o s random sc1 sc2 sc3 = (sent, inl e) ->
+  exists h icvlen rsp m2, auth_params (su_auth s) = Some (h, icvlen) /\
+    es_sik e = hmac_alg h (if Nat.eqb (length (so_kg o)) 0 then so_password o else so_kg o)
+                          (sik_input (rakp1_request o rsp random) m2) /\
+    es_k1 e = hmac_alg h (es_sik e) (k_const 1) /\ es_k2 e = hmac_alg h (es_sik e) (k_const 2).
+Proof.
+  intros o s random sc1 sc2 sc3 sent e H.
+  destruct (new_session_ok_inv _ _ _ _ _ _ _ _ H) as [rsp [m2 [m4 [h [icvlen [b1 [p1 [b2 [p2 [b3 [p3 F]]]]]]]]]]].
+  destruct F as (_ & _ & _ & _ & _ & _ & _ & AP & _ & SK & _ & (K1 & K2) & _).
+  exists h, icvlen, rsp, m2. auto.
+Qed.
+
+(* a shorter user key and its zero-padded 20-byte form are the same HMAC key (13.31: K_UID is 20 bytes) *)
+Theorem C01_user_key_padding : forall h k n m, (length k + n <= 64)%nat -> hmac h (k ++ repeat 0 n) m = hmac h k m.
+Proof. exact hmac_zero_pad. Qed.
+
+Theorem C01_tables_tie :
+  (forall n, k_const n = repeat (u8 n) (N.to_nat G.kConstantLength)) /\
+  (G.auth_table = [([1], "sha1.New 12 nil"); ([3], "sha256.New 16 nil"); ([2], "md5.New nil"); ([], "nil fmt.Errorf")]%string
+   /\ auth_params 1 = Some (1, 12%nat) /\ auth_params 3 = Some (3, 16%nat) /\ auth_params 2 = Some (2, 0%nat)) /\
+  (G.integrity_table = [([0], "nil fmt.Errorf"); ([1], "hmac.New sha1.New g.K 1 12 nil"); ([2], "hmac.New md5.New g.K 1 nil");
+                        ([4], "hmac.New sha256.New g.K 1 16 nil"); ([], "nil fmt.Errorf")]%string
+   /\ integrity_params 1 = Some (Some (1, 12%nat)) /\ integrity_params 2 = Some (Some (2, 16%nat))
+   /\ integrity_params 4 = Some (Some (3, 16%nat))) /\
+  G.confidentiality_table = [([0], "nil fmt.Errorf"); ([1], "16 g.K 2 ipmi.NewAES128CBC"); ([], "nil fmt.Errorf")]%string.
+Proof. exact (conj tie_k_constant (conj tie_auth_table (conj tie_integrity_table tie_confidentiality_table))). Qed.
